@@ -204,7 +204,18 @@ def run_text_op(case):
         s = str(cm)
         after = list(cm.lines)
         s2 = str(cm)
-        return {'before': before, 'str': s, 'after': after, 'str2': s2}
+        out = {'before': before, 'str': s, 'after': after, 'str2': s2}
+        if 'extend' in case:
+            # "... so that it can be rendered or extended again": extended in place (+=) and by append, after a rendering
+            c3 = Comment(to_py(case['content']))
+            str(c3)
+            c3 += to_py(case['extend'])
+            out['str3'] = str(c3)
+            c4 = Comment(to_py(case['content']))
+            str(c4)
+            c4.append(to_py(case['extend']))
+            out['str4'] = str(c4)
+        return out
     if op == 'py.splitlines':
         return case['s'].splitlines()
     if op == 'py.strip':
